@@ -3,6 +3,7 @@
 //! a behaviour) into recorded ndjson traces of the real code, or generates scripts.
 mod cycle;
 mod fb;
+mod hirdb;
 mod util;
 
 fn main() {
@@ -14,6 +15,8 @@ fn main() {
         "cycle-run" => cycle::run(rest),
         "fb-gen" => fb::gen(rest),
         "fb-run" => fb::run(rest),
+        "hirdb-gen" => hirdb::gen(rest),
+        "hirdb-run" => hirdb::run(rest),
         _ => {
             eprintln!("usage: tpv <sub-command> ...");
             2
